@@ -1,5 +1,5 @@
 """property id -> clauses (rule functions) + the honest remainder.  Single source for MANIFEST.json."""
-from . import r1, r2, r3, r4, r5check, r6, r7, r8, r9, r10
+from . import r1, r2, r3, r4, r5check, r6, r7, r8, r9, r10, r11
 
 
 def fam(*names):
@@ -118,7 +118,7 @@ PROPS = {
         "interpretation over the sign domain with polynomial quotient/remainder terms compared with the definitions",
     },
     "C05": {
-        "clauses": [guards("modulus", "exponent"), r3.check_parity_dispatch, r3.check_residue_complement, r3.check_division_sites, r3.check_add2_carry_used, both(r3.check_underflow_asserts), r1.check_biguint_normal_form, r5check.check_modular, count_ok("biguint/monty.rs", "biguint/power.rs", "bigint/power.rs", "biguint.rs", "bigint.rs", floor=100)],
+        "clauses": [guards("modulus", "exponent"), r3.check_parity_dispatch, r3.check_residue_complement, r3.check_division_sites, r3.check_add2_carry_used, both(r3.check_underflow_asserts), r1.check_biguint_normal_form, r5check.check_modular, count_ok("biguint/monty.rs", "biguint/power.rs", "bigint/power.rs", "biguint.rs", "bigint.rs", floor=100), both(r11.check_montgomery_operand_lengths), both(r11.check_montgomery_result_length)],
         "not_decided": "Montgomery arithmetic (montgomery, inv_mod_alt, the window walk), plain_modpow's squaring schedule, extended Euclid; padding of the base to the "
         "modulus length",
         "level_text": "Decides: zero-modulus and negative-exponent guards exist in release builds and dominate the computation; the Montgomery path is entered only behind "
